@@ -251,13 +251,21 @@ func c13Channel(seq bool) {
 		srcCap = []int{0, 2, 12, 12}[simrt.Draw(4)]
 	}
 	deepA, deepB := 0, 0
-	if deep {
+	if deep && simrt.Chance(1, 3) {
+		// the long version: more than 64 values re-read and committed, a handful left rolled back
+		deepA = simrt.DrawRange(67, 80)
+		deepB = simrt.DrawRange(deepA-6, deepA-1)
+		n = deepA + (deepA - deepB + 2) + 2 + simrt.Draw(3)
+		srcCap = 128
+		simrt.Probe("deep_replay_script_long")
+	} else if deep {
 		deepA = simrt.DrawRange(9, 13)
 		deepB = simrt.DrawRange(8, deepA-1)
 		n = deepA + (deepA - deepB + 2) + 2 + simrt.Draw(3) // never fewer values than the script reads: a Get with a live context would poll for ever
 		srcCap = 32
 	}
 	srcAny := simrt.Chance(1, 2)
+	srcNamed := !srcAny && simrt.Chance(1, 3) // element type: a named integer type (its values keep that type)
 	closeSrc := simrt.Chance(1, 2)
 	rate := []time.Duration{time.Microsecond, 50 * time.Microsecond, time.Millisecond, 0}[simrt.Draw(4)]
 	unit := rate
@@ -359,6 +367,7 @@ func c13Channel(seq bool) {
 	// ---------------- set-up ----------------
 	var (
 		srcInt  chan int
+		srcNam  chan c13N
 		srcAnyC chan any
 		source  any
 	)
@@ -369,6 +378,10 @@ func c13Channel(seq bool) {
 			source = (<-chan any)(srcAnyC) // a receive-only view is all the Channel needs
 			simrt.Probe("receive_only_source_of_any")
 		}
+	} else if srcNamed {
+		srcNam = make(chan c13N, srcCap)
+		source = srcNam
+		simrt.Probe("source_of_named_element_type")
 	} else {
 		srcInt = make(chan int, srcCap)
 		source = (<-chan int)(srcInt) // receive-only view: all the Channel needs
@@ -376,6 +389,9 @@ func c13Channel(seq bool) {
 	srcLen := func() int {
 		if srcAny {
 			return len(srcAnyC)
+		}
+		if srcNamed {
+			return len(srcNam)
 		}
 		return len(srcInt)
 	}
@@ -421,6 +437,13 @@ func c13Channel(seq bool) {
 		rollbackBegun  = false // a Rollback has been invoked
 	)
 	toInt := func(v any) int {
+		if srcNamed {
+			// what was sent is a c13N: it comes back as a c13N, not as its underlying kind
+			if i, ok := v.(c13N); ok && i >= 1 && int(i) <= n {
+				return int(i)
+			}
+			return -1
+		}
 		if i, ok := v.(int); ok && i >= 1 && i <= n {
 			return i
 		}
@@ -456,6 +479,12 @@ func c13Channel(seq bool) {
 				ok = true
 			case <-stopFeed:
 			}
+		} else if srcNamed {
+			select {
+			case srcNam <- c13N(v):
+				ok = true
+			case <-stopFeed:
+			}
 		} else {
 			select {
 			case srcInt <- v:
@@ -469,6 +498,8 @@ func c13Channel(seq bool) {
 		sendBegun = v
 		if srcAny {
 			srcAnyC <- v
+		} else if srcNamed {
+			srcNam <- c13N(v)
 		} else {
 			srcInt <- v
 		}
@@ -491,6 +522,8 @@ func c13Channel(seq bool) {
 			srcClosed = true
 			if srcAny {
 				close(srcAnyC)
+			} else if srcNamed {
+				close(srcNam)
 			} else {
 				close(srcInt)
 			}
@@ -712,6 +745,14 @@ func c13Channel(seq bool) {
 			default:
 				more = false
 			}
+		} else if srcNamed {
+			var i c13N
+			select {
+			case i, ok = <-srcNam:
+				v = i
+			default:
+				more = false
+			}
 		} else {
 			var i int
 			select {
@@ -786,3 +827,6 @@ func (c *c13DeadlineParent) expire() {
 		close(c.done)
 	}
 }
+
+// c13N is a named element type: values of it are not ints.
+type c13N int
